@@ -3,7 +3,7 @@ Driver for C13: runs a history of calls on one series transformer through the mo
 
   hist <cfg> <shift> <op> <op> ...
 
-cfg   des:<sp>:<A|M> | cdes:<sp>:<A|M> | det:<degree> | bc | log | ad:<T|F> | hampel:<w>:<nsigma>:<k>
+cfg   des:<sp>:<A|M> | cdes:<sp>:<A|M> | det:<degree> | bc | log | ad:<T|F> | hampel:<w>:<nsigma>:<k>[:<return_bool T|F>]
       | pass:<T|F>:<cfg>
 op    fit;<inp>;<seasonal|none>;<N|T|F>;<ok|E:kind>
       upd;<inp>;<D|T|F>
@@ -69,7 +69,13 @@ partial def parseCfg? (parts : List String) : Option TState :=
       let w ← parseNat? w
       let ns ← parseRat? ns
       let k ← parseRat? k
-      pure (.hampel ⟨w, ns, k⟩ false)
+      pure (.hampel ⟨⟨w, ns, k⟩, false⟩ false)
+  | ["hampel", w, ns, k, rb] => do
+      let w ← parseNat? w
+      let ns ← parseRat? ns
+      let k ← parseRat? k
+      let rb ← parseBool? rb
+      pure (.hampel ⟨⟨w, ns, k⟩, rb⟩ false)
   | "pass" :: flag :: rest => do
       let flag ← parseBool? flag
       let inner ← parseCfg? rest
